@@ -14,7 +14,8 @@
 (***************************************************************************)
 EXTENDS OciRef, TLC, Json
 
-CONSTANTS MaxFlat,        \* longest sequence of base symbols
+CONSTANTS Base,           \* base symbols: a subset of AllBase
+          MaxFlat,        \* longest sequence of base symbols
           MaxMacroFlat,   \* longest flat sequence containing a macro symbol
           PartsLevel      \* 0: no parts mode, 1: small tables, 2: full tables
 
@@ -24,12 +25,14 @@ Rep(c, n) == [i \in 1..n |-> c]
 HexRun(n) == [i \in 1..n |-> IF i % 3 = 0 THEN 57 ELSE IF i % 3 = 1 THEN 102 ELSE 48]   \* f09f09...
 Colon == <<ChColon>>
 
-BaseSyms == <<"a", "x", "A", "0", ".", "-", "_", ":", "/", "@", "[", "]", "!">>
+\* one representative per character class that the grammar distinguishes ("a": a-f, "x": g-z,
+\* "A": upper case, "0": digit, "!": every other byte)
+AllBase == {"a", "x", "A", "0", ".", "-", "_", ":", "/", "@", "[", "]", "!"}
 GlueSyms == {"a", "A", ".", "-", ":", "/", "@"}
 MacroSyms == {"D256", "D384", "D512", "Dshort", "Dlong", "Dupper", "Dnonhex", "Dalg", "Dmism",
               "A127", "A128", "A129", "A254", "A255", "A256",
               "HDOM", "HPORT", "HV6", "HV6P"}
-Base == {BaseSyms[i] : i \in 1..Len(BaseSyms)}
+ASSUME Base \subseteq AllBase /\ GlueSyms \subseteq Base
 
 Exp(y) ==
   CASE y = "a" -> <<97>> [] y = "x" -> <<120>> [] y = "A" -> <<65>> [] y = "0" -> <<48>>
@@ -89,13 +92,13 @@ Parts == [host |-> Expand(s[1]), repo |-> Expand(s[2]), tag |-> Expand(s[3]), di
 Str == IF mode = "flat" THEN Expand(s) ELSE PrintRef(Parts)
 
 \* ------------------------------------------------------------------- laws
+\* One invariant checks the laws and exports the case, so that Splits is computed once.
 MCLaws ==
-  IsCase => /\ Laws(Str)
-            /\ mode = "parts" => PrintParseFor(Parts)
-
-\* ----------------------------------------------------------------- export
-Emit ==
-  IsCase => PrintT(<<"MBT", ToJson(
-    IF mode = "flat" THEN [kind |-> "str", s |-> Str, v |-> Export(Verdict(Str))]
-    ELSE [kind |-> "parts", p |-> RefSeq(Parts), s |-> Str, v |-> Export(Verdict(Str))])>>)
+  IsCase => LET c == Str
+                S == Splits(c)
+            IN /\ LawsOn(c, S)
+               /\ mode = "parts" => PrintParseFor(Parts)
+               /\ PrintT(<<"MBT", ToJson(
+                     IF mode = "flat" THEN [kind |-> "str", s |-> c, v |-> Export(VerdictOn(c, S))]
+                     ELSE [kind |-> "parts", p |-> RefSeq(Parts), s |-> c, v |-> Export(VerdictOn(c, S))])>>)
 =============================================================================
